@@ -19,20 +19,22 @@ from types import SimpleNamespace
 from typing import Any, Callable, Iterator, Optional
 
 RULE = (
-    "Genes = every tuple of exon sizes (1 exon: 3..9 bases; 2 exons: 1..9 x 1..9; 3 exons: sizes from "
-    "{1,2,3,4,5,8}^3 quick / 1..9^3 thorough), introns of 0,1,2 or 4 bases chosen by a fixed formula of the "
-    "sizes, both strands, placed (a) on a linear record at position 0, in the middle, ending at the record "
-    "end, and filling the whole record, and (b) on a circular record (3 spare bases; thorough also 0 and 1) "
-    "with the origin 1, 2, 3 bases into each exon, 1 base before its end, exactly at its end, in the intron "
-    "and exactly at the next exon start; codon_start absent/1 alternating for all genes and 2, 3 for the "
-    "middle placement and two origin-spanning placements. Per gene: every protein range 0 <= s < e <= len//3 "
-    "(sub-location and convert), every leader/core/tail split and every hmmer/NRPS-PKS domain and motif "
-    "range on a fixed third of the genes, every codon as a TTA marker plus tta.detect on a sequence with "
-    "planted TTA codons. Sequences: ATG + pseudo-random sense codons (consecutive codons differ in amino "
-    "acid) written onto the record along the gene, random filler elsewhere. Thorough adds run.rng-seeded "
-    "genes with 1..5 exons of 1..40 bases on records up to 400 bases. Non-trivial = gene with more than "
-    "one part, or on the reverse strand, or with codon_start > 1 (single forward exons are the trivial "
-    "ones); distinct = distinct (gene structure, placement, codon_start, range, caller)."
+    "Genes = every tuple of exon sizes (1 exon: 3..9 bases; 2 exons: 1..9 x 1..9; 3 exons: {1,2,3,4,5,8}^3 "
+    "quick / 1..9^3 thorough; total >= 3), introns of 0, 1, 2 or 4 bases fixed by a formula of the sizes (a "
+    "second intron layout for two extra placements), both strands, placed (a) not spanning the origin: at "
+    "position 0, in the middle, ending at the record end, filling the whole record (linear records) and in the "
+    "middle of a circular record; (b) spanning the origin of a circular record with 3 spare bases (thorough also "
+    "0 and 1): origin 1, 2, 3 bases into each exon, 1 base before its end, exactly at its end, inside the intron, "
+    "exactly at the next exon start. codon_start absent/1 alternating on all genes; 2 and 3 on four non-spanning "
+    "and up to three origin-spanning placements (first exon longer than the shift). Per gene: construction "
+    "through CDSFeature.from_biopython on a real Record, every protein range 0 <= s < e <= len//3 "
+    "(get_sub_location_from_protein_coordinates, convert_protein_position_to_dna), every codon as TTA marker, "
+    "tta.detect on a sequence with TTA planted at every 2nd/3rd codon; on every third gene every "
+    "leader|core|tail split (Prepeptide.to_biopython), on another third every range through hmmer.build_hits, "
+    "generate_domain_features and generate_motif_features. Sequence = ATG + pseudo-random sense codons "
+    "(neighbouring codons differ in amino acid) laid along the gene, random filler elsewhere. Thorough adds "
+    "run.rng-seeded genes with 1..5 exons of 1..40 bases on records up to ~400 bases. Trivial = single forward "
+    "exon without codon_start shift; distinct = distinct (gene, placement, codon_start, range/codon, caller)."
 )
 EXHAUSTIVE = {"quick": True, "thorough": False}
 
@@ -233,6 +235,15 @@ def _context(case: dict) -> _Context:
 Outcome = list   # of (clause, ok, nontrivial, detail)
 
 
+def _quiet_translate(location: Any, sequence: Any) -> str:
+    """extract + translate through the real library, without Biopython's partial-codon warning on stderr
+    (the warning filters must not be touched globally: antismash asserts on a warning at import time)."""
+    import warnings
+    with warnings.catch_warnings():
+        warnings.simplefilter("ignore")
+        return str(location.extract(sequence).translate())
+
+
 def _judge(source: str, location: Any, ctx: _Context, start: int, end: int, want_protein: str,
            nontrivial: bool) -> Outcome:
     """location must: lie inside the gene, have three bases per residue, extract+translate (real library) to
@@ -244,7 +255,7 @@ def _judge(source: str, location: Any, ctx: _Context, start: int, end: int, want
     out.append((f"{source}-inside-gene", _inside(parts, gene_now), nontrivial, text))
     out.append((f"{source}-three-bases-per-residue", len(location) == 3 * (end - start), nontrivial,
                 f"{text}: {len(location)} bases for {end - start} residues"))
-    okc, protein = _guard(lambda: str(location.extract(ctx.record.seq).translate()))
+    okc, protein = _guard(lambda: _quiet_translate(location, ctx.record.seq))
     out.append((f"{source}-translates-to-translation-slice", okc and protein == want_protein, nontrivial,
                 f"{text}: extract+translate gives {protein!r}, the gene's translation there is {want_protein!r}"))
     want_walk = ctx.walk[3 * start:3 * end]
@@ -427,7 +438,7 @@ def _eval_detect(case: dict) -> Outcome:
         okc, got = _guard(lambda: (ctx.record.add_subregion(SubRegion(FeatureLocation(0, ctx.length), tool="test")),
                                    ctx.record.create_regions()))
         if not okc:
-            raise RuntimeError(f"cannot build the region for tta.detect: {got}")
+            return [("tta-detect-no-unexpected-exception", False, nontrivial, f"building the region: {got}")]
     if not any(cds is ctx.cds for cds in ctx.record.get_cds_features_within_regions()):
         return []   # region membership of the gene is C08's business, not a demand of this property
     planted = [i for i in range(ctx.residues) if ctx.coding[3 * i:3 * i + 3] == "TTA"]
@@ -463,6 +474,8 @@ def evaluate(case: dict) -> Outcome:
 
 
 def replay(case: dict) -> list[str]:
+    import logging
+    logging.disable(logging.CRITICAL)
     _LAST[0] = None
     return [f"{_label(clause, case)}: {detail}" for clause, ok, _, detail in evaluate(case) if not ok]
 
@@ -715,7 +728,7 @@ def _random_gene(rng: Any) -> Optional[dict]:
 def shards(tier: str, seed: int) -> list:
     del seed
     count = 32 if tier == "quick" else 64
-    return [{"tier": tier, "index": i, "stride": count, "random_s": 0 if tier == "quick" else 60}
+    return [{"tier": tier, "index": i, "stride": count, "random_s": 0 if tier == "quick" else 40}
             for i in range(count)]
 
 
